@@ -176,7 +176,7 @@ func callSeqTie(r *hlib.Run, scratch string) {
 			r.Nontrivial("cssrc|" + x.Shape)
 		}
 		sort.Strings(fns)
-		r.Op(fmt.Sprintf("cssrc %s %s *", csClass(n, ""), n), strings.Join(fns, ","))
+		r.Op(fmt.Sprintf("cssrc %s %s *", csClass(n, "*"), n), strings.Join(fns, ","))
 		r.Count("cssrc:decoders")
 	}
 }
